@@ -9,7 +9,7 @@ sv_slices = [
 ]
 TRUSTED = [
  "REGION slice: only the loop nest that computes the new vectors' scaling factors and inserts the new elements into the cross file is executed (verbatim, region_start/region_end); the earlier parts of doAddRows/doAddCols (append the set, create missing cross vectors, count per cross vector, xtend + set_size) are replaced by a precondition on the state they leave: S1 new own vectors oldNumber..num()-1 hold nonzeros/sides/objective as entered, legal sizes, one exponent entry per vector in both arrays; S2 every index of a new vector < number of cross vectors; S3 newCols[k]/newRows[k] = number of nonzeros with index k in the new vectors, cross vector k already extended by that many cells (newCols[k] <= size(k) <= max(k))",
- "both loops of the region unwound completely (--unwind CAPO+1 with unwinding assertions); scope: at most CAPO own vectors after the append (CAPO = 2 quick, 3 in the _cap3 instances; any split into old and new ones) of at most 2 nonzeros each, at most 2 cross vectors of at most 2 cells each",
+ "both loops of the region unwound completely (--unwind CAPO+1 with unwinding assertions); scope: at most CAPO own vectors after the append (CAPO = 2 quick, 3 in the _cap3 instances), any split 0 <= oldNumber <= num() <= CAPO into old and new ones - covered by TWO instances per function (doAddRows: num() == CAPO / num() < CAPO; doAddCols: oldNumber >= 1 / oldNumber == 0) so that the end at which the loop over the new vectors starts is a literal of at most 2 nonzeros each, at most 2 cross vectors of at most 2 cells each",
  "storage model: flat cell arrays, vector v = cells [v*2, v*2+2); SVector index()/value() real bodies (sliced), size()/max() stubs",
  "computeScaleExp stubbed: an arbitrary exponent with |E| <= 2^20 per own vector (real body: units scaler_scalar, lp_addscale:computeScaleExp)",
  "thesense == MAXIMIZE (doAddCols: the `*= -1` for minimisation is not expressible in the ledger)",
@@ -24,36 +24,37 @@ CONF = [
  {"file":LPB,"regex":"LPRowSetBase<R>::xtend\\(i,\\s*len\\);\\s*rowVector_w\\(i\\)\\.set_size\\(len\\);","why":"S3: doAddCols presets the extended row sizes before the region"},
 ]
 UNW = [{"function":"H::body\\(this\\)","loop":0},{"function":"H::body\\(this\\)","loop":1}]
-def inst(name, fn, defs, region_start, region_end, mutants, capo=2, tier="quick"):
-    d = {"CAPO":str(capo),"CAPX":"2","MATW":"2","ADDSLICE":"\"region.inc\""}; d.update(defs)
-    return {"name":name, "function":fn, "cpp":["unit_add.cpp"], "c":["contract_add.c"], "harness":"h_add", "enforce":"w_add",
+def inst(name, fn, defs, region_start, region_end, mutants, capo, tier, scope):
+    d = {"CAPO":str(capo),"CAPX":"2","MATW":"2","SCOPE":"(%s)" % scope,"ADDSLICE":"\"region.inc\""}; d.update(defs)
+    return {"name":name, "function":fn + "  {scope: %s, CAPO = %d}" % (scope, capo), "cpp":["unit_add.cpp"], "c":["contract_add.c"], "harness":"h_add", "enforce":"w_add",
             "defines":d, "slices":sv_slices + [{"as":"region.inc","file":LPB,"region_start":region_start,"region_end":region_end,
                                                 "must_contain":["computeScaleExp","scaleExp\\[i\\]"]}],
             "unwind_loops":UNW, "unwind":capo + 1, "conformance":CONF, "trusted":TRUSTED, "min_obligations":150, "tier":tier, "mutants":mutants}
+ROWS_FN = "SPxLPBase<R>::doAddRows(const LPRowSetBase<R>& set, bool scale)  [scale == true; region 'compute new row scaling factor and insert new elements to column file']"
+COLS_FN = "SPxLPBase<R>::doAddCols(const LPColSetBase<R>& set, bool scale)  [scale == true; region 'insert new elements to row file']"
+ROWS_REGION = ("// compute new row scaling factor and insert new elements to column file\\s*for\\(i = nRows\\(\\) - 1; i >= oldRowNumber; --i\\)",
+               "#ifndef NDEBUG\\s*for\\(i = 0; i < nCols\\(\\); \\+\\+i\\)\\s*assert\\(newCols\\[i\\] == 0\\);")
+COLS_REGION = ("// insert new elements to row file\\s*for\\(i = oldColNumber; i < nCols\\(\\); \\+\\+i\\)",
+               "#ifndef NDEBUG\\s*for\\(i = 0; i < nRows\\(\\); \\+\\+i\\)\\s*assert\\(newRows\\[i\\] == 0\\);")
+ROWS_MUT = [
+ {"name":"seed_exp_at_relative_index","slice":"region.inc","find":"LPRowSetBase<R>::scaleExp[i] = newRowScaleExp;","replace":"LPRowSetBase<R>::scaleExp[i - oldRowNumber] = newRowScaleExp;"},
+ {"name":"cross_copy_before_scaling","slice":"region.inc","find":"col->value(idx) = vec.value(j);","replace":"col->value(idx) = vec.value(j) - newRowScaleExp;"},
+ {"name":"only_row_exp","slice":"region.inc","find":"newRowScaleExp + colscaleExp[k]","replace":"newRowScaleExp"},
+ {"name":"lhs_unguarded","slice":"region.inc","find":"if(lhs(i) > R(-infinity))","replace":"if(lhs(i) >= R(-infinity))"},
+ {"name":"exp_not_stored","slice":"region.inc","find":"LPRowSetBase<R>::scaleExp[i] = newRowScaleExp;","replace":""}]
+COLS_MUT = [
+ {"name":"seed_exp_at_relative_index","slice":"region.inc","find":"LPColSetBase<R>::scaleExp[i] = newColScaleExp;","replace":"LPColSetBase<R>::scaleExp[i - oldColNumber] = newColScaleExp;"},
+ {"name":"bounds_wrong_sign","slice":"region.inc","find":"upper_w(i) = spxLdexp(upper_w(i), - newColScaleExp);","replace":"upper_w(i) = spxLdexp(upper_w(i), newColScaleExp);"},
+ {"name":"only_col_exp","slice":"region.inc","find":"newColScaleExp + rowscaleExp[k]","replace":"newColScaleExp"},
+ {"name":"slot_off_by_one","slice":"region.inc","find":"int idx = row.size() - newRows[k];","replace":"int idx = row.size() - newRows[k] - 1;"}]
 def add_instances():
     out = []
     for capo, tier, suffix in ((2, "quick", ""), (3, "thorough", "_cap3")):
-        out += _pair(capo, tier, suffix)
+        few = (lambda ms: ms) if capo == 2 else (lambda ms: ms[:1])
+        # primary scopes: the seeded index fault (needs an old AND a new vector) is refutable here
+        out.append(inst("doAddRows_region" + suffix, ROWS_FN, {"NEWROW":""}, ROWS_REGION[0], ROWS_REGION[1], few(ROWS_MUT), capo, tier, "nown == CAPO"))
+        out.append(inst("doAddCols_region" + suffix, COLS_FN, {}, COLS_REGION[0], COLS_REGION[1], few(COLS_MUT), capo, tier, "nown0 >= 1"))
+        # complementary scopes
+        out.append(inst("doAddRows_region_fewer" + suffix, ROWS_FN, {"NEWROW":""}, ROWS_REGION[0], ROWS_REGION[1], few(ROWS_MUT[1:]), capo, tier, "nown < CAPO"))
+        out.append(inst("doAddCols_region_allnew" + suffix, COLS_FN, {}, COLS_REGION[0], COLS_REGION[1], few(COLS_MUT[1:]), capo, tier, "nown0 == 0"))
     return out
-def _pair(capo, tier, suffix):
-    pick = (lambda ms: ms) if capo == 2 else (lambda ms: ms[:1])
-    rows = inst("doAddRows_region" + suffix,
-      "SPxLPBase<R>::doAddRows(const LPRowSetBase<R>& set, bool scale)  [scale == true; region 'compute new row scaling factor and insert new elements to column file']",
-      {"NEWROW":""},
-      "// compute new row scaling factor and insert new elements to column file\\s*for\\(i = nRows\\(\\) - 1; i >= oldRowNumber; --i\\)",
-      "#ifndef NDEBUG\\s*for\\(i = 0; i < nCols\\(\\); \\+\\+i\\)\\s*assert\\(newCols\\[i\\] == 0\\);",
-      pick([{"name":"seed_exp_at_relative_index","slice":"region.inc","find":"LPRowSetBase<R>::scaleExp[i] = newRowScaleExp;","replace":"LPRowSetBase<R>::scaleExp[i - oldRowNumber] = newRowScaleExp;"},
-       {"name":"cross_copy_before_scaling","slice":"region.inc","find":"col->value(idx) = vec.value(j);","replace":"col->value(idx) = vec.value(j) - newRowScaleExp;"},
-       {"name":"only_row_exp","slice":"region.inc","find":"newRowScaleExp + colscaleExp[k]","replace":"newRowScaleExp"},
-       {"name":"lhs_unguarded","slice":"region.inc","find":"if(lhs(i) > R(-infinity))","replace":"if(lhs(i) >= R(-infinity))"},
-       {"name":"exp_not_stored","slice":"region.inc","find":"LPRowSetBase<R>::scaleExp[i] = newRowScaleExp;","replace":""}]), capo, tier)
-    cols = inst("doAddCols_region" + suffix,
-      "SPxLPBase<R>::doAddCols(const LPColSetBase<R>& set, bool scale)  [scale == true; region 'insert new elements to row file']",
-      {},
-      "// insert new elements to row file\\s*for\\(i = oldColNumber; i < nCols\\(\\); \\+\\+i\\)",
-      "#ifndef NDEBUG\\s*for\\(i = 0; i < nRows\\(\\); \\+\\+i\\)\\s*assert\\(newRows\\[i\\] == 0\\);",
-      pick([{"name":"seed_exp_at_relative_index","slice":"region.inc","find":"LPColSetBase<R>::scaleExp[i] = newColScaleExp;","replace":"LPColSetBase<R>::scaleExp[i - oldColNumber] = newColScaleExp;"},
-       {"name":"bounds_wrong_sign","slice":"region.inc","find":"upper_w(i) = spxLdexp(upper_w(i), - newColScaleExp);","replace":"upper_w(i) = spxLdexp(upper_w(i), newColScaleExp);"},
-       {"name":"only_col_exp","slice":"region.inc","find":"newColScaleExp + rowscaleExp[k]","replace":"newColScaleExp"},
-       {"name":"slot_off_by_one","slice":"region.inc","find":"int idx = row.size() - newRows[k];","replace":"int idx = row.size() - newRows[k] - 1;"}]), capo, tier)
-    return [rows, cols]
